@@ -6,6 +6,8 @@ use std::io::{BufRead, Write};
 
 mod util;
 mod c18;
+mod addr;
+mod c17;
 
 pub struct Out {
     pub result: String,
@@ -25,6 +27,7 @@ fn eval(case: &str) -> Out {
     let kind = case.split(' ').next().unwrap_or("");
     let r = std::panic::catch_unwind(|| match kind {
         "C18" => c18::eval(case),
+        "C17" => c17::eval(case),
         _ => Out::ok(format!("harnesserr unknown kind {}", kind)),
     });
     match r {
@@ -36,6 +39,7 @@ fn eval(case: &str) -> Out {
 fn gen(prop: &str, rng: &mut ChaCha20Rng, n: usize, thorough: bool) -> Vec<Case> {
     match prop {
         "C18" => c18::gen(rng, n, thorough),
+        "C17" => c17::gen(rng, n, thorough),
         _ => panic!("unknown property {}", prop),
     }
 }
